@@ -1137,7 +1137,7 @@ type OutsParams struct {
 	Outs    []string // FILEW outputs returned by the top-level pipeline
 	OutName bool     // explicit output names on the pipeline's file outputs
 	Size    int
-	Mode    int  // 0 files, 1 nulls, 2 missing, 3 symlinks, 4 outside the pipestance, 5 relative links (from a sub-directory) to the first output's file
+	Mode    int  // 0 files, 1 nulls, 2 missing, 3 symlinks, 4 outside the pipestance, 5 relative links (from a sub-directory) to the first output's file, 6 outside the pipestance and named relative to the working directory
 	ProdMap bool // mapped producer: every output becomes an array
 	TopMap  bool // the top-level call itself is mapped
 	Wrap    bool // outputs pass through a sub-pipeline
@@ -1283,7 +1283,7 @@ func OutsFamily(thorough bool) []OutsParams {
 	var out []OutsParams
 	for _, set := range sets {
 		for _, size := range sizes {
-			for mode := 0; mode <= 5; mode++ {
+			for mode := 0; mode <= 6; mode++ {
 				if mode == 5 && len(set) < 2 && set[0] != "fs" && set[0] != "s" && set[0] != "ss" && set[0] != "ff" {
 					continue // needs at least two file leaves
 				}
